@@ -32,7 +32,7 @@ func genC09(dir, tier string, seed int64) {
 	keep := 3 // quick: one in `keep` of the enumerated reduction cases of rank >= 3
 	nSoft := 260
 	if tier == "thorough" {
-		keep, nSoft = 1, 6000
+		keep, nSoft = 1, 20000
 	}
 	cw := newCaseWriter(dir, "C09_ops", opHeader("CheckC09"), opFooter,
 		"ArgMax: all shapes of rank 1..4 with extents 1..3 x every axis in both spellings (and out-of-range ones) x keepdims in {absent,0,1}, payloads with ties, distinct values, NaNs (float) over float32/float64/int32/int64/uint32/uint64 (one 64-bit integer payload in three: neighbouring values beyond 2^53); ReduceMax/ReduceMin: the same shapes x every subset of axes (random positive/negative spelling, absent, unsorted) x keepdims in {absent,0,1}, NaN-free payloads; Softmax/LogSoftmax: seeded random shapes of rank 1..4 (extents 1..4) x every axis in both spellings (default and out-of-range too) x float32/float64, finite values across the whole range: tiny, ordinary, +-1e3 gaps inside a slice, up to +-3e38 / +-1e308, equal values, first element of the tensor far above a later row", false, 250)
